@@ -6,18 +6,18 @@ import "math/big"
 
 // Verification hook (build tag verif): re-exports existing identifiers only.
 
-// VerifDeduplicator wraps the unexported event deduplicator.
-type VerifDeduplicator struct{ d *deduplicator }
+// VerifC37Deduplicator wraps the unexported event deduplicator.
+type VerifC37Deduplicator struct{ d *deduplicator }
 
-func VerifNewDeduplicator() *VerifDeduplicator {
-	return &VerifDeduplicator{d: newDeduplicator()}
+func VerifC37NewDeduplicator() *VerifC37Deduplicator {
+	return &VerifC37Deduplicator{d: newDeduplicator()}
 }
 
-func (v *VerifDeduplicator) NotifyDKGStarted(seed *big.Int) bool {
+func (v *VerifC37Deduplicator) NotifyDKGStarted(seed *big.Int) bool {
 	return v.d.notifyDKGStarted(seed)
 }
 
-func (v *VerifDeduplicator) NotifyDKGResultSubmitted(
+func (v *VerifC37Deduplicator) NotifyDKGResultSubmitted(
 	seed *big.Int,
 	hash [32]byte,
 	block uint64,
@@ -25,6 +25,6 @@ func (v *VerifDeduplicator) NotifyDKGResultSubmitted(
 	return v.d.notifyDKGResultSubmitted(seed, DKGChainResultHash(hash), block)
 }
 
-func (v *VerifDeduplicator) NotifyWalletClosed(walletID [32]byte) bool {
+func (v *VerifC37Deduplicator) NotifyWalletClosed(walletID [32]byte) bool {
 	return v.d.notifyWalletClosed(walletID)
 }
